@@ -39,6 +39,9 @@ def duration_strings(rnd):
     for u, m in UNITS.items():
         q = MAXI32 // m
         out += ['%d%s' % (x, u) for x in (0, 1, q - 1, q, q + 1, q * 10, 2147483647, 2147483648, 4294967296, 214748364, 214748365)]
+    for big in (2 ** 63 - 1, 2 ** 63, 2 ** 64 - 1, 2 ** 64, 2 ** 64 + 1, 2 ** 64 + 60, 2 * 2 ** 64 + 5, 3 * 2 ** 64 + rnd.randint(1, 2 ** 31 - 1),
+                4 * 2 ** 64 + 7, 2 ** 32 + 1, 2 ** 32, 10 ** 19, 10 ** 20 + 1, 2 ** 96 + 1, 2 ** 128 + 3):
+        out.append('%d%s' % (big, rnd.pick('smhdwy')))
     out += ['', 's', '1', '1ss', '1sm', '01s', '00s', '0s', '-1s', '+1s', '1 s', ' 1s', '1S', '1x', '1.5s', '1e3s', '99999999999s',
             '1s ', '१s', '1µ', 'y1', '1y1', '1d2h', '007d', '0y', '0w']
     return out
@@ -69,6 +72,7 @@ def list_strings(rnd):
            '1s:4s, 2s:8s', '1S:4S', '1s:1m,1m:1m', '1s:59s,1m:1h', '1s:60s,1m:1h', '1s:61s,1m:1h', '2s:60s,1m:2m', '2s:118s,1m:2m']
     for _ in range(4):
         out.append(retention_string(random_layout(rnd)))
+    out += ['18446744073709551617s:1m', '1s:18446744073709551676s', '18446744073709551617s:18446744073709551676s,1m:1h', '4294967297s:4294967356s']
     return out
 
 
@@ -91,7 +95,7 @@ def gen_c19(rnd, n, thorough=False):
         for d in (-1, -60, -2 ** 31, rnd.randint(-2 ** 31, -1)):
             if rnd.chance(0.3):
                 add('sdur', 'sdur %d' % d)
-        for s in rnd.sample(duration_strings(rnd), 8):
+        for s in rnd.sample(duration_strings(rnd), 12):
             add('pdur', 'pdur %s' % S(s))
         for s in ex[c * per:(c + 1) * per]:
             add('pdur', 'pdur %s' % S(s))
